@@ -14,6 +14,7 @@ from dep_logic.markers.any import AnyMarker
 from dep_logic.markers.base import BaseMarker, EvaluationContext
 from dep_logic.markers.empty import EmptyMarker
 from dep_logic.specifiers import BaseSpecifier
+from dep_logic.specifiers.base import InvalidSpecifier as UnparsableSpecifier
 from dep_logic.specifiers.base import VersionSpecifier
 from dep_logic.specifiers.generic import GenericSpecifier
 from dep_logic.utils import DATACLASS_ARGS, OrderedSet, get_reflect_op, normalize_name
@@ -441,10 +442,19 @@ def _has_exact_specifier(marker: MarkerExpression) -> bool:
         # implementation_version: compared as a version when evaluated, as a
         # plain string by its specifier
         return False
-    if not marker.reversed or marker.name not in marker._VERSION_LIKE_MARKER_NAME:
+    if marker.name not in marker._VERSION_LIKE_MARKER_NAME:
+        return True
+    try:
+        marker.specifier
+    except UnparsableSpecifier:
+        # the operand is not a version (or a comma separated list of versions): the
+        # atom only has its PEP 508 string meaning
+        return False
+    if not marker.reversed:
         return True
     if marker.op in ("in", "not in"):
-        return True
+        # `"lit" in name` tests the literal against the value as a substring
+        return False
     return marker.op != "~=" and all(p.isdigit() for p in marker.value.split("."))
 
 
